@@ -41,7 +41,7 @@ def behaviour(rnd, nops):
             for _ in range(rnd.choice([1, 1, 2, 3, n // 7 + 2, n // 7 + 3])):
                 ev.append(["csrv", RXID, 0])
         elif r < 0.76:
-            ev.append(["csrv", RXID, rnd.choice([1, 1, 2, 3, 4, 5, 6])])
+            ev.append(["csrv", RXID, rnd.choice([1, 1, 2, 3, 4, 5, 6, 6, 7, 7])])
         elif r < 0.90:
             for _ in range(rnd.choice([1, 1, 2, 3, 6, 10])):
                 ev.append(["tick"])
